@@ -94,12 +94,14 @@ def run(prop_id, tier, seed, replay=None, configs=None, workers=None, quiet=Fals
     samples = []
     arms = {}
     progress = collections.Counter()
+    poison = collections.Counter()
     evals = cut_calls = guard = ro = sup = rep = 0
     for r in results:
         _merge_counts(counters, r["counters"])
         _merge_counts(contracts, r["contracts"])
         _merge_counts(emu, r.get("emu_stats"))
         _merge_counts(progress, r.get("progress"))
+        _merge_counts(poison, r.get("poison"))
         words.update(r["words"])
         viols.extend(r["violations"])
         evals += r["evaluations"]
@@ -206,6 +208,8 @@ def run(prop_id, tier, seed, replay=None, configs=None, workers=None, quiet=Fals
             ev["coverage"]["branch_arms"] = arms
         if progress:
             ev["coverage"]["cursor_progress_monitor"] = dict(progress)
+        if poison:
+            ev["coverage"]["uninitialised_memory_poison"] = dict(poison)
         os.makedirs(os.path.join(outroot, "evidence"), exist_ok=True)
         with open(os.path.join(outroot, "evidence", prop_id + ".json"), "w") as f:
             json.dump(ev, f, indent=1)
